@@ -388,10 +388,12 @@ func (x *EvalCtx) evalCall(e *Expr) TV {
 			efail("contains on non-slice")
 		}
 		heap, es := c.elemHeap(sl.Elem())
-		c.n++
-		iv := Term{fmt.Sprintf("ci!%d", c.n), SInt}
-		body := And(Le(IntLit(0), iv), Lt(iv, slLen(s.T)), Eq(c.sliceElem(x.st, heap, es, s.T, iv), v.T))
-		return TV{Term{fmt.Sprintf("(exists ((%s Int)) %s)", iv.S, body.S), SBool}, tyBool}
+		if v.T.Sort != es {
+			efail("contains: element sort mismatch")
+		}
+		inner := Select(c.get(x.st, heap), slArr(s.T), ArraySort(SInt, es))
+		set := c.elemsOf(inner, slOff(s.T), slLen(s.T), es)
+		return TV{Select(set, v.T, SBool), tyBool}
 	case "unbox":
 		// unbox(T, anyvalue)
 		efail("unbox not supported here")
@@ -492,7 +494,7 @@ func (c *Enc) ufunApp(uf *UFun, args []Term) TV {
 func (x *EvalCtx) evalQuant(e *Expr) TV {
 	c := x.c
 	vars := map[string]TV{}
-	var binders []string
+	var bound []Term
 	for _, b := range e.Binds {
 		bt, err := c.eng.resolveType(b.Type)
 		if err != nil {
@@ -502,26 +504,22 @@ func (x *EvalCtx) evalQuant(e *Expr) TV {
 		sym := fmt.Sprintf("%s!q%d", b.Name, c.n)
 		s := c.sortOf(bt)
 		vars[b.Name] = TV{Term{sym, s}, bt}
-		binders = append(binders, fmt.Sprintf("(%s %s)", sym, s))
+		bound = append(bound, Term{sym, s})
 	}
 	n := x.with(vars)
 	body := n.eval(e.Args[0])
 	if body.T.Sort != SBool {
 		efail("quantifier body not boolean")
 	}
-	bodyS := body.T.S
-	if len(e.Pats) > 0 {
-		var pats []string
-		for _, p := range e.Pats {
-			var ts []string
-			for _, pe := range p {
-				ts = append(ts, n.eval(pe).T.S)
-			}
-			pats = append(pats, ":pattern ("+strings.Join(ts, " ")+")")
+	var pats []string
+	for _, p := range e.Pats {
+		var ts []string
+		for _, pe := range p {
+			ts = append(ts, n.eval(pe).T.S)
 		}
-		bodyS = "(! " + bodyS + " " + strings.Join(pats, " ") + ")"
+		pats = append(pats, ":pattern ("+strings.Join(ts, " ")+")")
 	}
-	return TV{Term{fmt.Sprintf("(%s (%s) %s)", e.Name, strings.Join(binders, " "), bodyS), SBool}, tyBool}
+	return TV{mkQuant(e.Name, bound, body.T.S, pats), tyBool}
 }
 
 var _ = ssa.NaiveForm
